@@ -94,6 +94,11 @@ struct Scenario<'a> {
     /// configuration / flag of the golden and the faulty runs
     run_cfg: Cfg,
     force_flag: bool,
+    /// the faulty runs go through the library function generate_from_config
+    faulty_lib: bool,
+    /// the recovery run goes through the library function (only the bindings are compared then:
+    /// the library writes no dependency report)
+    recover_lib: bool,
 }
 
 fn forced_variant(c: &Case) -> (Cfg, bool) {
@@ -144,7 +149,7 @@ fn judge(env: &mut Env, co: &mut CaseOut, sc: &Scenario, faulty_runs: &[Vec<Faul
         let mut p = c.p_gold.clone();
         p.hash_keys[0] = p.hash_keys[0].wrapping_add(ri as u64);
         p.faults = faults.clone();
-        let r = scen::run_tool(env, sc.w, &c.setup, &sc.run_cfg, p, sc.force_flag, false);
+        let r = if sc.faulty_lib { scen::run_library(env, sc.w, &c.setup, &sc.run_cfg, p, false) } else { scen::run_tool(env, sc.w, &c.setup, &sc.run_cfg, p, sc.force_flag, false) };
         co.count("faulty_runs", 1);
         note_cleanup(&r.res.trace, &mut cleanup_attempted);
         let fired = !r.res.fired.is_empty();
@@ -164,7 +169,8 @@ fn judge(env: &mut Env, co: &mut CaseOut, sc: &Scenario, faulty_runs: &[Vec<Faul
             if r.res.status.is_ok() {
                 let cmp = if masked { Cmp::Exact } else { Cmp::Canon };
                 let want = if masked { &sc.golden } else { &sc.reference };
-                let bad = canon::compare_to_reference(&files, want, cmp, true);
+                let bindings_only = |f: &Files| -> Files { f.iter().filter(|(n, _)| n.ends_with(".ts")).map(|(n, b)| (n.clone(), b.clone())).collect() };
+                let bad = if sc.faulty_lib { canon::compare_to_reference(&bindings_only(&files), &bindings_only(want), Cmp::Canon, true) } else { canon::compare_to_reference(&files, want, cmp, true) };
                 if !bad.is_empty() {
                     co.violate_hint(
                         format!("C17/ok-but-wrong/{}", sig_tail),
@@ -208,7 +214,7 @@ fn judge(env: &mut Env, co: &mut CaseOut, sc: &Scenario, faulty_runs: &[Vec<Faul
         p.faults = vec![f.clone()];
         second_recovery = true;
     }
-    let rec = scen::run_tool(env, sc.w, &c.setup, &sc.cfg, p, false, false);
+    let rec = if sc.recover_lib { scen::run_library(env, sc.w, &c.setup, &sc.cfg, p, false) } else { scen::run_tool(env, sc.w, &c.setup, &sc.cfg, p, false, false) };
     co.count("recovery_runs", 1);
     let mut rec = rec;
     if second_recovery {
@@ -230,7 +236,12 @@ fn judge(env: &mut Env, co: &mut CaseOut, sc: &Scenario, faulty_runs: &[Vec<Faul
         );
         return;
     }
-    let bad = canon::compare_to_reference(&files, want, Cmp::Canon, true);
+    let bad = if sc.recover_lib {
+        let bindings_only = |f: &Files| -> Files { f.iter().filter(|(n, _)| n.ends_with(".ts")).map(|(n, b)| (n.clone(), b.clone())).collect() };
+        canon::compare_to_reference(&bindings_only(&files), &bindings_only(want), Cmp::Canon, true)
+    } else {
+        canon::compare_to_reference(&files, want, Cmp::Canon, true)
+    };
     if !bad.is_empty() {
         let (kind, clause) = if hit {
             ("stale-hit", "2: the cache never vouches for files that are not current (a non-forced run said 'up to date')")
@@ -243,6 +254,9 @@ fn judge(env: &mut Env, co: &mut CaseOut, sc: &Scenario, faulty_runs: &[Vec<Faul
             format!("{}: after recovery {:?}", what, bad),
             hint,
         );
+        return;
+    }
+    if sc.recover_lib {
         return;
     }
     // nothing new is left lying around by a run that was alive to clean up after itself
@@ -651,7 +665,7 @@ impl Check for C17 {
             return co;
         }
         let events: Vec<Event> = gold.res.trace.iter().filter(|e| e.mseq.is_some()).cloned().collect();
-        let sc = Scenario { w: &w, c: &c, s0, reference, golden, golden_events: events, cfg: c.cfg.clone(), run_cfg, force_flag };
+        let sc = Scenario { w: &w, c: &c, s0, reference, golden, golden_events: events, cfg: c.cfg.clone(), run_cfg, force_flag, faulty_lib: false, recover_lib: false };
         co.count("golden_fault_points", sc.golden_events.len() as u64);
         let scen_label = format!("{}/{}/{}/{}", c.prestate, c.setup.label(), c.cfg.mode, if c.cfg.visualize { "viz" } else { "noviz" });
         if c.kind == "enumerate" {
@@ -705,6 +719,47 @@ impl Check for C17 {
                     judge(env, &mut co, &sc, &[vec![FaultSpec { at: FaultAt::Read(k), kind: kind.clone() }]], &what, &sig_tail, json!(null), None);
                     n_inj += 1;
                     co.reach("file_x_op_x_kind", format!("<source>:{}/{}", e.op.name(), fl));
+                }
+            }
+            // The library function generate_from_config is the third way to produce the bindings (and,
+            // since the repair of finding 13, the third keeper of the record). The faulty run goes
+            // through it; the recovery run goes through the scenario's own entry point or through the
+            // library again, alternately. All clauses apply; a library recovery is compared on the
+            // bindings only (the library writes no dependency report).
+            if c.only.is_none() && matches!(c.prestate.as_str(), "first" | "after_edit" | "revert") {
+                sc.w.restore(&sc.s0);
+                let gold_lib = scen::run_library(env, sc.w, &c.setup, &sc.run_cfg, c.p_gold.clone(), false);
+                if gold_lib.res.status.is_ok() {
+                    let lib_events: Vec<Event> = gold_lib.res.trace.iter().filter(|e| e.mseq.is_some()).cloned().collect();
+                    for (ei, e) in lib_events.iter().enumerate() {
+                        let k = e.mseq.unwrap() as usize;
+                        let tgt = target_of(e, &out_root);
+                        let mut kinds: Vec<FaultKind> = kinds_for(e).into_iter().filter(|x| !x.is_crash()).collect();
+                        kinds.push(FaultKind::CrashBefore);
+                        for (ki, kind) in kinds.into_iter().enumerate() {
+                            let recover_lib = (ei + ki) % 2 == 0;
+                            let sc2 = Scenario {
+                                w: sc.w,
+                                c: sc.c,
+                                s0: sc.s0.clone(),
+                                reference: sc.reference.clone(),
+                                golden: sc.golden.clone(),
+                                golden_events: vec![],
+                                cfg: sc.cfg.clone(),
+                                run_cfg: sc.run_cfg.clone(),
+                                force_flag: false,
+                                faulty_lib: true,
+                                recover_lib,
+                            };
+                            let fl = fault_label(&kind);
+                            let what = format!("{} at fault point {} ({} {}) of a LIBRARY call in a {} scenario [{}], recovery through {}", fl, k, e.op.name(), tgt, c.prestate, c.setup.label(), if recover_lib { "the library" } else { "the entry point" });
+                            let sig_tail = format!("lib:{}:{}/{}/{}", tgt, e.op.name(), fl, c.prestate);
+                            judge(env, &mut co, &sc2, &[vec![FaultSpec { at: FaultAt::Mut(k), kind: kind.clone() }]], &what, &sig_tail, json!(null), None);
+                            n_inj += 1;
+                            co.count("library_calls_with_a_fault", 1);
+                            co.reach("file_x_op_x_kind", format!("lib:{}:{}/{}", tgt, e.op.name(), fl));
+                        }
+                    }
                 }
             }
             co.count("fault_injections", n_inj);
